@@ -46,11 +46,30 @@ type SeqName struct {
 	// listed before the priority-1 record in DEscending priority order (the
 	// resolver has to order them; the cached RRset must not be reordered in place).
 	NSvc int `json:"nsvc,omitempty"`
+	// Port (shape "https", sequential histories): the name is resolved as
+	// host:port, so its HTTPS records live at _port._https.host - a name that
+	// vanishes altogether (NXDOMAIN) when the records are withdrawn.
+	Port int `json:"port,omitempty"`
+}
+
+func (n *SeqName) input() string {
+	if n.Port != 0 {
+		return fmt.Sprintf("%s:%d", n.Host, n.Port)
+	}
+	return n.Host
+}
+
+func (n *SeqName) httpsOwner() string {
+	if n.Port != 0 {
+		return fmt.Sprintf("_%d._https.%s", n.Port, n.Host)
+	}
+	return n.Host
 }
 
 type nameState struct {
-	version int
-	ttls    []uint32
+	version   int
+	ttls      []uint32
+	withdrawn bool // the HTTPS records are gone for now
 }
 
 func valA(idx, ver, slot int) string {
@@ -90,13 +109,16 @@ func buildZone(names []SeqName, st []nameState, fault string) *simdoh.Zone {
 			if n.Shape == "target" {
 				tgt = names[n.Other].Host
 			}
+			if st[i].withdrawn {
+				break
+			}
 			if n.Shape != "nodata" {
 				for x := n.NSvc; x >= 1; x-- {
-					z.RRs = append(z.RRs, simdoh.RR{Name: n.Host, Type: simdoh.TypeHTTPS, TTL: ttl(), Target: tgt,
+					z.RRs = append(z.RRs, simdoh.RR{Name: n.httpsOwner(), Type: simdoh.TypeHTTPS, TTL: ttl(), Target: tgt,
 						Svc: &simdoh.Svc{Priority: uint16(1 + x), ALPN: []string{"h2", "p" + fmt.Sprint(x), "v" + fmt.Sprint(ver)}, ECH: []byte{0xEC, byte(ver >> 8), byte(ver), byte(i), byte(x)}}})
 				}
 			}
-			z.RRs = append(z.RRs, simdoh.RR{Name: n.Host, Type: simdoh.TypeHTTPS, TTL: ttl(), Target: tgt,
+			z.RRs = append(z.RRs, simdoh.RR{Name: n.httpsOwner(), Type: simdoh.TypeHTTPS, TTL: ttl(), Target: tgt,
 				Svc: &simdoh.Svc{Priority: 1, ALPN: []string{"h3", "h2", "v" + fmt.Sprint(ver)}, ECH: []byte{0xEC, byte(ver >> 8), byte(ver), byte(i)}}})
 		case "alias":
 			z.RRs = append(z.RRs, simdoh.RR{Name: n.Host, Type: simdoh.TypeHTTPS, TTL: ttl(), Target: names[n.Other].Host, Svc: &simdoh.Svc{}})
@@ -128,6 +150,8 @@ func buildZone(names []SeqName, st []nameState, fault string) *simdoh.Zone {
 		z.Faults = []simdoh.Fault{{Kind: simdoh.FaultRCode, RCode: 9}}
 	case "rcode6":
 		z.Faults = []simdoh.Fault{{Kind: simdoh.FaultRCode, RCode: 6}}
+	case "rcode16": // extended RCODE whose header nibble is zero
+		z.Faults = []simdoh.Fault{{Kind: simdoh.FaultRCode, RCode: 16}}
 	}
 	return z
 }
@@ -144,6 +168,7 @@ type respRec struct {
 	done   time.Duration
 	tick   int64
 	failed bool // the exchange did not deliver an answer (transport, status, rcode)
+	nx     bool // ... because the name does not exist
 }
 
 func keyOf(name string, typ uint16) string {
@@ -171,6 +196,7 @@ func responsesOf(log []simdoh.Entry) []respRec {
 		if e.Outcome != "answer" || e.Reply == nil {
 			// NXDOMAIN and other rcodes, HTTP errors, transport errors
 			r.failed = true
+			r.nx = e.Outcome == "rcode:3"
 			out = append(out, r)
 			continue
 		}
@@ -225,7 +251,7 @@ func observe(names []SeqName, i int, r ech.ResolveResult) []observation {
 	sort.Strings(v6)
 	sort.Strings(hs)
 	host := names[owner].Host
-	obs := []observation{{keyOf(host, simdoh.TypeHTTPS), hs}, {keyOf(host, simdoh.TypeA), v4}, {keyOf(host, simdoh.TypeAAAA), v6}}
+	obs := []observation{{keyOf(names[owner].httpsOwner(), simdoh.TypeHTTPS), hs}, {keyOf(host, simdoh.TypeA), v4}, {keyOf(host, simdoh.TypeAAAA), v6}}
 	if names[i].Shape == "alias" {
 		// the alias record itself is not visible in the result
 	}
@@ -307,11 +333,20 @@ func judgeHistory(res *core.Result, prop string, calls []callRec, resps []respRe
 		}
 		for _, o := range c.obs {
 			var cands []int
+			nxNow := false
 			for _, ri := range byKey[o.key] {
 				r := &resps[ri]
 				if !r.failed && r.tick < c.c1 && sameValues(r.values, o.values) {
 					cands = append(cands, ri)
 				}
+				if r.nx && len(o.values) == 0 && r.tick > c.c0 && r.tick < c.c1 && strings.HasSuffix(o.key, "/HTTPS") {
+					// NXDOMAIN on the HTTPS lookup of this very call: absence
+					nxNow = true
+				}
+			}
+			if nxNow {
+				res.Probe("https_nxdomain_as_absence")
+				continue
 			}
 			if len(cands) == 0 {
 				if len(o.values) == 0 && len(byKey[o.key]) == 0 {
@@ -408,6 +443,8 @@ type SeqOp struct {
 	Fail  string   `json:"fail,omitempty"`
 	Size  int      `json:"size,omitempty"`
 	TTLs  []uint32 `json:"ttls,omitempty"` // change: new TTLs (nil: keep)
+	// Toggle (change): the HTTPS records of the name are withdrawn / published again.
+	Toggle bool `json:"toggle,omitempty"`
 }
 
 type SeqPlan struct {
@@ -473,6 +510,17 @@ func genC16(seed uint64, idx int) *Plan {
 	}
 	p := &SeqPlan{}
 	p.Names = genNames(r, core.Between(r, 1, 4), false)
+	for i := range p.Names {
+		referenced := false
+		for j := range p.Names {
+			if j != i && (p.Names[j].Shape == "target" || p.Names[j].Shape == "alias") && p.Names[j].Other == i {
+				referenced = true
+			}
+		}
+		if p.Names[i].Shape == "https" && !referenced && idx%4 == 0 {
+			p.Names[i].Port = 8443
+		}
+	}
 	p.LatencyUs = core.Pick(r, []int{1, 500, 20000})
 	p.CacheSize = core.Pick(r, []int{-1, -1, -1, 128, 128, 8, 2, 0})
 	lat := time.Duration(p.LatencyUs) * time.Microsecond
@@ -506,12 +554,13 @@ func genC16(seed uint64, idx int) *Plan {
 			if core.Chance(r, 1, 3) {
 				op.TTLs = genTTLs(r)
 			}
+			op.Toggle = core.Chance(r, 1, 3)
 			p.Ops = append(p.Ops, op)
 		case x < 19:
 			if failing {
 				p.Ops = append(p.Ops, SeqOp{Op: "heal"})
 			} else {
-				p.Ops = append(p.Ops, SeqOp{Op: "fail", Fail: core.Pick(r, []string{"5xx", "transport", "servfail", "burst", "refused", "rcode9", "rcode6"})})
+				p.Ops = append(p.Ops, SeqOp{Op: "fail", Fail: core.Pick(r, []string{"5xx", "transport", "servfail", "burst", "refused", "rcode9", "rcode6", "rcode16"})})
 			}
 			failing = !failing
 		default:
@@ -560,7 +609,7 @@ func executeSeq(t *testing.T, prop string, pl *Plan) *core.Result {
 				c := callRec{name: op.Name, afterOp: oi, t0: srv.Now(), c0: srv.Tick()}
 				var rr ech.ResolveResult
 				var panicked bool
-				panicked, c.panicMsg, c.panicAt = core.Guard(func() { rr, c.err = rs.Resolve(context.Background(), p.Names[op.Name].Host) })
+				panicked, c.panicMsg, c.panicAt = core.Guard(func() { rr, c.err = rs.Resolve(context.Background(), p.Names[op.Name].input()) })
 				c.t1, c.c1 = srv.Now(), srv.Tick()
 				if !panicked && c.err == nil {
 					c.obs = observe(p.Names, op.Name, rr)
@@ -578,6 +627,10 @@ func executeSeq(t *testing.T, prop string, pl *Plan) *core.Result {
 				st[op.Name].version = version
 				if op.TTLs != nil {
 					st[op.Name].ttls = op.TTLs
+				}
+				if op.Toggle {
+					st[op.Name].withdrawn = !st[op.Name].withdrawn
+					res.Fault("https_records_toggled")
 				}
 				srv.SetZone(buildZone(p.Names, st, fault))
 				log = append(log, fmt.Sprintf("%d change %d v%d", oi, op.Name, version))
